@@ -561,6 +561,25 @@ func (e *enumerator) stmt(s ast.Stmt, p Path, depth int, k kont) {
 					// second evaluation of the condition: assumed false (one iteration). It goes through
 					// the same expansion as the first (predicate helpers, hoisted tests); a condition
 					// that is still a conjunction/disjunction afterwards is recorded as one outcome
+					// conjuncts that are boolean locals the loop never assigns (`for !room && size >= cap`)
+					// still hold as they did when the loop was entered: the conjunct that ends the loop
+					// is among the others
+					if conj := flattenAnd(v.Cond); len(conj) > 1 {
+						var rest []ast.Expr
+						for _, cj := range conj {
+							if !e.invariantFlag(cj, v) {
+								rest = append(rest, cj)
+							}
+						}
+						if len(rest) == 1 && len(rest) < len(conj) {
+							e.cond(rest[0], p3, depth, func(q Path, val bool) {
+								if !val {
+									after(append(q, Event{Kind: "ENDLOOP"}))
+								}
+							})
+							return
+						}
+					}
 					c2 := v.Cond
 					if e.c.Expand != nil {
 						c2 = e.c.Expand(c2)
@@ -869,4 +888,63 @@ func singleResultReturns(body *ast.BlockStmt) bool {
 		return true
 	})
 	return ok && n > 0
+}
+
+func flattenAnd(e ast.Expr) []ast.Expr {
+	if be, ok := ast.Unparen(e).(*ast.BinaryExpr); ok && be.Op == token.LAND {
+		return append(flattenAnd(be.X), flattenAnd(be.Y)...)
+	}
+	return []ast.Expr{e}
+}
+
+// invariantFlag: c is a boolean local (possibly negated) that nothing in the loop assigns or takes the
+// address of.
+func (e *enumerator) invariantFlag(c ast.Expr, loop *ast.ForStmt) bool {
+	c = ast.Unparen(c)
+	for {
+		u, ok := c.(*ast.UnaryExpr)
+		if !ok || u.Op != token.NOT {
+			break
+		}
+		c = ast.Unparen(u.X)
+	}
+	id, ok := c.(*ast.Ident)
+	if !ok || e.c.Info == nil {
+		return false
+	}
+	v, ok := e.c.Info.ObjectOf(id).(*types.Var)
+	if !ok || v.IsField() || v.Pkg() == nil || v.Parent() == v.Pkg().Scope() {
+		return false
+	}
+	if b, ok := v.Type().Underlying().(*types.Basic); !ok || b.Kind() != types.Bool {
+		return false
+	}
+	touched := false
+	check := func(n ast.Node) {
+		if n == nil {
+			return
+		}
+		ast.Inspect(n, func(m ast.Node) bool {
+			switch w := m.(type) {
+			case *ast.AssignStmt:
+				for _, l := range w.Lhs {
+					if lid, ok := ast.Unparen(l).(*ast.Ident); ok && e.c.Info.ObjectOf(lid) == v {
+						touched = true
+					}
+				}
+			case *ast.UnaryExpr:
+				if w.Op == token.AND {
+					if lid, ok := ast.Unparen(w.X).(*ast.Ident); ok && e.c.Info.ObjectOf(lid) == v {
+						touched = true
+					}
+				}
+			}
+			return true
+		})
+	}
+	check(loop.Body)
+	if loop.Post != nil {
+		check(loop.Post)
+	}
+	return !touched
 }
